@@ -618,7 +618,10 @@ func (o *oracles) noteProbes(st stepRef) {
 }
 
 func (o *oracles) onHang(what string) {
-	if o.on("C09", "C11") {
+	// C16: "every stream matching a tag with an attached converter eventually has
+	// output" — a conversion that never returns is the plainest way to break it
+	convHang := o.on("C16") && (strings.Contains(what, "convert") || strings.Contains(what, "ConvertAndReset") || strings.Contains(what, "StreamData") || strings.Contains(what, "ResetConv"))
+	if o.on("C09", "C11") || convHang {
 		kind := what
 		if i := strings.IndexAny(what, "#0123456789"); i > 0 {
 			kind = strings.TrimSpace(what[:i])
